@@ -1,6 +1,6 @@
 """C05 — expected-token lists name only tokens that could actually continue the input."""
 import time
-import vlib, gram, lrengine, lrcheck, c04
+import vlib, gram, lrengine, lrcheck, c04, cgb, cgcheck
 
 PROP = "C05"
 
@@ -33,6 +33,10 @@ def make_judge(c):
             return ("incomplete-expected-lr1", "canonical LR(1): expected %r, valid continuations %r" % (names, sorted(conts)))
         return None
     return judge
+
+
+def lalr_bin(c):
+    return c.lalrpop
 
 
 def run(tier):
@@ -91,6 +95,47 @@ def run(tier):
     cobl += cobl2; cdis += cdis2; nbad += nbad2
     dec, nbad0 = lrcheck.correspond(PROP, rep, c, cases, make_judge(c), "c05"); nbad += nbad0
     lrcheck.report_cert_failures(PROP, rep, c, failing, bool(rep.viol), make_judge(c), r)
+    # recursive-ascent back end: the compiled parsers' lists judged directly (soundness clause)
+    asc = {"grammars": 0, "errors": 0, "over_broad": 0}
+    ga = [g for g in gram.corpus() if not g.recovery and g.name.startswith("nonlalr")][:3]
+    # the shape on which the defect of the recursive-ascent generator shows (known_findings.txt): a state
+    # shared by two contexts reports, at end of input, what either context would accept
+    ga.append(gram.G("asc_shared", ["a", "b", "c", "d", "e", "f", "x"], {
+        "S": [["a", "X", "d"], ["b", "X", "c"], ["a", "Y", "c"], ["b", "Y", "d"]],
+        "X": [["e", "Z"]], "Y": [["f", "Z"]], "Z": [["x"]]}))
+    ga += [gram.nonlalr_family(r, 900 + i) for i in range(2 if tier == "quick" else 12)]
+    ga += [g for g in gram.corpus() if not g.recovery and len(g.nts) <= 4][:4]
+    okb, outb, binary, units = cgcheck.build_corpus(rep, lalr_bin(c), ga, variants=("a",))
+    if not okb:
+        raise vlib.BuildBroken("compiled recursive-ascent parsers do not build: " + outb[-1500:])
+    acases, ameta = [], []
+    for u in units:
+        g = u["g"]; asc["grammars"] += 1
+        for st in g.pubs:
+            if not g.reduced(st):
+                continue
+            for n, w in enumerate(lrcheck.gen_words(g, st, r, 8 if tier == "quick" else 30)):
+                for cut in range(0, len(w) + 1):
+                    pre = list(w[:cut])
+                    items = lrengine.tok_items(g, {"tnames": ['"%s"' % t for t in g.terms]}, pre, r)
+                    acases.append((u["name"], st, items, None, [])); ameta.append((g, st, pre))
+    ares = cgb.run(binary, acases) if acases else []
+    for (g, st, pre), d in zip(ameta, ares):
+        if d["kind"] != "err" or d["err"]["e"] not in ("UnrecognizedToken", "UnrecognizedEof"):
+            continue
+        asc["errors"] += 1
+        npre = len(pre) if d["err"]["e"] == "UnrecognizedEof" else None
+        if npre is None:
+            continue   # token errors: the position is C04's business; the list is judged at end-of-input errors
+        conts = g.continuations(st, pre)
+        if conts is None:
+            continue
+        names = [x.strip('"') for x in d["err"]["expected"]]
+        extra = [x for x in names if x not in conts]
+        if extra:
+            asc["over_broad"] += 1
+            rep.violation("ascent-expected-not-viable", {"what": "the recursive-ascent parser lists %r as expected after %r although only %r can follow" % (extra, pre, sorted(conts)),
+                          "grammar_text": g.render(ascent=True), "tokens": pre, "expected": names, "valid_continuations": sorted(conts)})
     errs = [(x, d) for x, d in zip(cases, dec) if d["kind"] == "err" and "expected" in d["err"]]
     reduced_first = 0
     distinct = len({(x[0], tuple(i[1] for i in x[1])) for x, d in errs if len(d["err"]["expected"]) >= 1})
@@ -100,7 +145,7 @@ def run(tier):
            "theorems": names, "certificates": {"checked": cobl, "valid": cdis},
            "evaluations": len(cases) + len(cases2), "distinct_nontrivial": distinct,
            "rule": "recovery corpus grammars x all token strings up to length 3 (quick) / 5 (thorough): every expected list in the result (final error, error nodes) vs the model, no duplicates, never the error terminal; and, without recovery, as C04 (rejected inputs incl. unknown tokens); non-trivial = an error with a non-empty expected list, distinct by (table, terminal string)",
-           "distribution": {"errors_with_expected": len(errs), "tables": len(c.ok), "recovery_tables": len(c2.ok), "recovery_inputs": len(cases2),
+           "distribution": {"errors_with_expected": len(errs), "tables": len(c.ok), "recovery_tables": len(c2.ok), "recovery_inputs": len(cases2), "recursive_ascent": asc,
                             "expected_sizes": {str(k): sum(1 for _, d in errs if len(d["err"]["expected"]) == k) for k in range(0, 8)}},
            "samples": [dict(lrcheck.case_desc(c, x), implementation=d) for x, d in errs[:2]]}
     for s in cov["samples"]:
